@@ -183,6 +183,9 @@ def ref_codecs(ext, wire, d, mode="sync", rng=None):
         nct = wire["s_nct"] if d == "s2c" else wire["c_nct"]
         mem = rng.choice([1, 8, 9]) if rng else 8
         level = rng.choice([-1, 1, 6, 9]) if rng else -1
+        if wb <= 8:
+            # zlib cannot deflate with a 2^8 window (it would silently use 2^9): the honest pure-Python compressor
+            return R7.SmallWindowDeflater(wb, nct), R7.RefInflater(wb, nct, chunk=7)
         return R7.RefDeflater(wb, nct, mode, level, mem), R7.RefInflater(wb, nct)
     if ext == BZIP2:
         import bz2
@@ -337,3 +340,30 @@ class MixedRefDeflater:
         if mode == "bfinal":
             self.bfinal_seen = True
         return out
+
+
+def small_window_plan(rng, tag):
+    """Messages for a direction negotiated with a very small window: repeats closer and further than 256 octets,
+    inside one message and across messages (context takeover), text, empty, one octet."""
+    a, b, c = rng.randbytes(300), rng.randbytes(180), rng.randbytes(700)
+    text = (SENT * 3).encode("utf-8")
+    n = [0]
+
+    def t(body):
+        n[0] += 1
+        return ("<%s#%d>" % (tag, n[0])).encode() + body
+
+    return [
+        ("text-first", t(text), False),
+        ("repeat-at-300", t(a + a), True),
+        ("repeat-at-180", t(b + b + b), True),
+        ("empty", b"", False),
+        ("block-700", t(c), True),
+        ("block-700-again", t(c), True),                 # across messages, 700+ octets back
+        ("tail-of-previous", t(c[-200:] + b"!" + c[-200:]), True),
+        ("one-byte", b"x", False),
+        ("text-repeat", t(text), False),
+        ("repeat-at-300-again", t(a + b + a + c[:300] + a), True),
+        ("all-octets", t(bytes(range(256)) * 3), True),
+        ("text-last", t(text[:150]), False),
+    ]
